@@ -27,6 +27,7 @@ RULE = ("Hypothesis: mido files with ticks_per_beat from {24,48,96,120,192,240,3
         "at tick 0 is tolerated when none lands there), none elsewhere. Non-trivial: real rounding (tpb does not divide "
         "24*tick for some event), >= 2 tracks, and a group of >= 2 tracks or a track outside all groups. Distinct by digest.")
 RULE = RULE + " Rounds e-g: a second load of the same parsed MidiFile, pitch-wheel / aftertouch / poly-pressure / sysex runs carrying delta time, explicit groups with the default meta selection."
+RULE = RULE + " Round h: velocities from a two-value pool."
 ASSUMPTIONS = ["mido's message and file model is trusted", "notes shorter than 1.5 library ticks are not generated (rounding may annihilate them)"]
 TIERS = {"quick": dict(shards=8, examples=300), "thorough": dict(shards=16, examples=4000)}
 
@@ -64,7 +65,8 @@ def _case(draw):
             ch, p = draw(st.integers(0, 2)), draw(st.sampled_from([60, 61, 72]))
             if act == "on" and (ch, p) not in sounding:
                 sounding[(ch, p)] = t
-                events.append([d, "on", ch, p, draw(st.integers(1, 127))])
+                # (velocities from a small pool in a third of the draws: notes of one key that are equal in every attribute)
+                events.append([d, "on", ch, p, draw(st.one_of(st.integers(1, 127), st.integers(1, 127), st.sampled_from([64, 100])))])
             elif act == "off" and (ch, p) not in sounding and draw(st.integers(0, 4)) == 0:
                 # ill-formed track: a note-off for a key that is not sounding in this track (closes nothing)
                 events.append([d, "stray_off", ch, p, draw(st.integers(0, 1))])
